@@ -419,3 +419,253 @@ theorem length_dropWhile_le' {α} (p : α → Bool) (l : List α) : (l.dropWhile
   | cons a l ih =>
     by_cases hp : p a = true <;> simp [List.dropWhile_cons, hp]; omega
 end TsVerif.C18
+
+/-! ## The whole loop: emission order -/
+namespace TsVerif.C18
+
+
+
+/-- The name node of a match, as the capture loop of `TagsIter::next` determines it. -/
+def nameOf (cfg : Cfg) (m : Mat) : Option R :=
+  if m.pat < cfg.tagsFrom then none
+  else ((capLoop cfg (cfg.pats[m.pat]?.getD {}) m.caps).name).map (fun c => (⟨c.sb, c.eb⟩ : R))
+
+theorem processMatch_queue (v : Variant) (cfg : Cfg) (src : Bytes) (m : Mat) (st : St) :
+    (processMatch v cfg src m st).queue = st.queue ∨
+    ∃ t, nameOf cfg m = some t.name ∧ (processMatch v cfg src m st).queue = qInsert t m.pat st.queue := by
+  unfold processMatch nameOf
+  by_cases hp : m.pat < cfg.tagsFrom
+  · simp [hp]
+  · simp only [hp, if_false]
+    unfold processTag
+    generalize capLoop cfg (cfg.pats[m.pat]?.getD {}) m.caps = a
+    obtain ⟨name, docs, tag, stid, isDef, adj, ignored⟩ := a
+    cases name with
+    | none => exact Or.inl rfl
+    | some nameNode =>
+      cases tag with
+      | some tagNode =>
+        simp only [Option.map_some]
+        split
+        · exact Or.inl rfl
+        · split
+          · exact Or.inl rfl
+          · exact Or.inr ⟨_, rfl, rfl⟩
+      | none =>
+        simp only [Option.map_some]
+        split
+        · exact Or.inr ⟨_, rfl, rfl⟩
+        · exact Or.inl rfl
+
+def TagLt (a b : Tag) : Prop := keyLt (key a) (key b) = true
+
+theorem qsorted_map (q : Queue) (h : QSorted q) : (q.map Prod.fst).Pairwise TagLt := by
+  unfold QSorted at h
+  rw [List.pairwise_map]
+  exact h
+
+theorem drain_sublist (skip : Bool) : ∀ (n : Nat) (q : Queue), (drain skip n q).Sublist (q.map Prod.fst) := by
+  intro n
+  induction n with
+  | zero => intro q; simp [drain]
+  | succ n ih =>
+    intro q
+    cases q with
+    | nil => simp [drain]
+    | cons hd rest =>
+      obtain ⟨t, p⟩ := hd
+      simp only [drain, List.map_cons]
+      split
+      · split
+        · exact (ih rest).cons _
+        · exact (ih rest).cons_cons _
+      · split
+        · exact (ih rest).cons _
+        · exact (ih rest).cons_cons _
+
+/-- What `flushReady` does: it pops a prefix `pre`, each popped entry ends before the start of some
+queued entry, and the emitted tags are a sublist of the popped ones. -/
+theorem flush_spec : ∀ (n : Nat) (q : Queue),
+    ∃ pre, q = pre ++ (flushReady n q).2 ∧ (flushReady n q).1.Sublist (pre.map Prod.fst) ∧
+      ∀ x ∈ pre, ∃ y ∈ q, x.1.name.e < y.1.name.s := by
+  intro n
+  induction n with
+  | zero => intro q; exact ⟨[], by simp [flushReady]⟩
+  | succ n ih =>
+    intro q
+    by_cases hr : ready q = true
+    · cases q with
+      | nil => simp [ready] at hr
+      | cons hd rest =>
+        obtain ⟨t, p⟩ := hd
+        obtain ⟨pre, h1, h2, h3⟩ := ih rest
+        refine ⟨(t, p) :: pre, ?_, ?_, ?_⟩
+        · simp only [flushReady, hr, if_true, List.cons_append]; rw [← h1]
+        · simp only [flushReady, hr, if_true, List.map_cons]
+          split
+          · exact h2.cons _
+          · exact h2.cons_cons _
+        · intro x hx
+          rcases List.mem_cons.mp hx with rfl | hx
+          · -- the head: ready says it ends before the last entry starts
+            simp only [ready] at hr
+            cases hl : ((t, p) :: rest).getLast? with
+            | none => simp [hl] at hr
+            | some last =>
+              simp [hl] at hr
+              exact ⟨last, List.mem_of_getLast? hl, hr.2⟩
+          · obtain ⟨y, hy, hlt⟩ := h3 x hx
+            exact ⟨y, List.mem_cons_of_mem _ hy, hlt⟩
+    · refine ⟨[], ?_, ?_, ?_⟩
+      · simp [flushReady, hr]
+      · simp [flushReady, hr]
+      · intro x hx; simp at hx
+
+
+def names (cfg : Cfg) (ms : List Mat) : List R := ms.filterMap (nameOf cfg)
+
+/-- Test configuration for the examples: capture 0 = `@name`, capture 1 = a reference kind. -/
+def wcfg : Cfg := { nameIdx := some 0, capMap := [(1, 0, false)], tagsFrom := 0, pats := #[{}] }
+def wm (s e : Nat) : Mat := { pat := 0, caps := [⟨0, s, e, ⟨0, s⟩, ⟨0, e⟩, false⟩, ⟨1, s, e, ⟨0, s⟩, ⟨0, e⟩, false⟩] }
+
+theorem keyLt_of_fst_lt {a b : Tag} (h : a.name.e < b.name.e) : TagLt a b := by
+  simp [TagLt, keyLt, key, h]
+
+theorem run_sorted (v : Variant) (cfg : Cfg) (src : Bytes) : ∀ (ms : List Mat) (st : St),
+    QSorted st.queue →
+    (∀ y ∈ st.queue, ∀ r ∈ names cfg ms, y.1.name.s ≤ r.e) →
+    (names cfg ms).Pairwise (fun a b => a.s ≤ b.e) →
+    (run v cfg src ms st).Pairwise TagLt ∧
+    ∀ x ∈ run v cfg src ms st, (∃ y ∈ st.queue, x = y.1) ∨ (∃ r ∈ names cfg ms, x.name = r) := by
+  intro ms
+  induction ms with
+  | nil =>
+    intro st hs _ _
+    simp only [run]
+    have hsub := drain_sublist v.drainSkips st.queue.length st.queue
+    refine ⟨(qsorted_map _ hs).sublist hsub, fun x hx => Or.inl ?_⟩
+    have := hsub.subset hx
+    simp only [List.mem_map] at this
+    obtain ⟨y, hy, rfl⟩ := this
+    exact ⟨y, hy, rfl⟩
+  | cons m ms ih =>
+    intro st hs hc hp
+    obtain ⟨pre, h1, h2, h3⟩ := flush_spec st.queue.length st.queue
+    simp only [run]
+    generalize hfr : flushReady st.queue.length st.queue = fr at h1 h2
+    obtain ⟨out, q'⟩ := fr
+    simp only at h1 h2 ⊢
+    have hs' : QSorted st.queue := hs
+    unfold QSorted at hs
+    rw [h1, List.pairwise_append] at hs
+    obtain ⟨hpre, hq', hcross⟩ := hs
+    have hsubq : ∀ y ∈ q', y ∈ st.queue := fun y hy => by rw [h1]; exact List.mem_append_right _ hy
+    have hsubp : ∀ y ∈ pre, y ∈ st.queue := fun y hy => by rw [h1]; exact List.mem_append_left _ hy
+    have hnames : ∀ r ∈ names cfg ms, r ∈ names cfg (m :: ms) := by
+      intro r hr
+      simp only [names, List.filterMap_cons]
+      split
+      · exact hr
+      · exact List.mem_cons_of_mem _ hr
+    have hp' : (names cfg ms).Pairwise (fun a b => a.s ≤ b.e) := by
+      simp only [names, List.filterMap_cons] at hp
+      split at hp
+      · exact hp
+      · exact (List.pairwise_cons.mp hp).2
+    -- the state after the match
+    generalize hst : processMatch v cfg src m { st with queue := q' } = st'
+    have hq := processMatch_queue v cfg src m { st with queue := q' }
+    rw [hst] at hq
+    simp only at hq
+    -- every entry of the new queue is an old one or the tag of this match
+    have hmem : ∀ y ∈ st'.queue, y ∈ q' ∨ (nameOf cfg m = some y.1.name) := by
+      intro y hy
+      rcases hq with hq | ⟨t, hn, hq⟩
+      · rw [hq] at hy; exact Or.inl hy
+      · rw [hq] at hy
+        rcases mem_qInsert hy with hy | hy
+        · exact Or.inl hy
+        · subst hy; exact Or.inr hn
+    have hhead : ∀ r, nameOf cfg m = some r → r ∈ names cfg (m :: ms) ∧ ∀ r' ∈ names cfg ms, r.s ≤ r'.e := by
+      intro r hr
+      simp only [names, List.filterMap_cons, hr] at hp ⊢
+      exact ⟨List.mem_cons_self, (List.pairwise_cons.mp hp).1⟩
+    have hsq : QSorted st'.queue := by
+      rcases hq with hq | ⟨t, _, hq⟩
+      · rw [hq]; exact hq'
+      · rw [hq]; exact qInsert_sorted _ _ _ hq'
+    have hcq : ∀ y ∈ st'.queue, ∀ r ∈ names cfg ms, y.1.name.s ≤ r.e := by
+      intro y hy r hr
+      rcases hmem y hy with hy | hy
+      · exact hc y (hsubq y hy) r (hnames r hr)
+      · exact (hhead _ hy).2 r hr
+    obtain ⟨ihs, ihm⟩ := ih st' hsq hcq hp'
+    -- popped entries end before every later name ends
+    have hlow : ∀ p ∈ pre, ∀ r ∈ names cfg (m :: ms), p.1.name.e < r.e := by
+      intro p hp r hr
+      obtain ⟨y0, hy0, hlt⟩ := h3 p hp
+      have := hc y0 hy0 r hr
+      omega
+    refine ⟨?_, ?_⟩
+    · rw [List.pairwise_append]
+      refine ⟨(qsorted_map pre hpre).sublist h2, ihs, ?_⟩
+      intro a ha b hb
+      have ha' := h2.subset ha
+      simp only [List.mem_map] at ha'
+      obtain ⟨p, hpp, rfl⟩ := ha'
+      rcases ihm b hb with ⟨y, hy, rfl⟩ | ⟨r, hr, hbr⟩
+      · rcases hmem y hy with hy | hy
+        · exact hcross p hpp y hy
+        · exact keyLt_of_fst_lt (hlow p hpp _ (hhead _ hy).1)
+      · exact keyLt_of_fst_lt (by rw [hbr]; exact hlow p hpp r (hnames r hr))
+    · intro x hx
+      rcases List.mem_append.mp hx with hx | hx
+      · have hx' := h2.subset hx
+        simp only [List.mem_map] at hx'
+        obtain ⟨p, hpp, rfl⟩ := hx'
+        exact Or.inl ⟨p, hsubp p hpp, rfl⟩
+      · rcases ihm x hx with ⟨y, hy, rfl⟩ | ⟨r, hr, hxr⟩
+        · rcases hmem y hy with hy | hy
+          · exact Or.inl ⟨y, hsubq y hy, rfl⟩
+          · exact Or.inr ⟨_, (hhead _ hy).1, rfl⟩
+        · exact Or.inr ⟨r, hnames r hr, hxr⟩
+
+
+/-- Pattern indices stored in the queue only decrease, and the entry for the inserted key carries an
+index ≤ the inserted one. -/
+theorem qInsert_pat_le (tag : Tag) (pat : Nat) (q : Queue) :
+    (∃ x ∈ qInsert tag pat q, key x.1 = key tag ∧ x.2 ≤ pat) ∧
+    ∀ y ∈ q, ∃ x ∈ qInsert tag pat q, key x.1 = key y.1 ∧ x.2 ≤ y.2 := by
+  induction q with
+  | nil => simp [qInsert]
+  | cons hd rest ih =>
+    obtain ⟨t, p⟩ := hd
+    simp only [qInsert]
+    split
+    · rename_i heq
+      have heq' : key t = key tag := by simpa using heq
+      split
+      · rename_i hgt
+        refine ⟨⟨(tag, pat), List.mem_cons_self, rfl, Nat.le_refl _⟩, ?_⟩
+        intro y hy
+        rcases List.mem_cons.mp hy with rfl | hy
+        · exact ⟨(tag, pat), List.mem_cons_self, heq'.symm, by simp; omega⟩
+        · exact ⟨y, List.mem_cons_of_mem _ hy, rfl, Nat.le_refl _⟩
+      · rename_i hgt
+        refine ⟨⟨(t, p), List.mem_cons_self, heq', by simp; omega⟩, ?_⟩
+        intro y hy
+        exact ⟨y, hy, rfl, Nat.le_refl _⟩
+    · split
+      · refine ⟨⟨(tag, pat), List.mem_cons_self, rfl, Nat.le_refl _⟩, ?_⟩
+        intro y hy
+        exact ⟨y, List.mem_cons_of_mem _ hy, rfl, Nat.le_refl _⟩
+      · obtain ⟨⟨x, hx, hk, hle⟩, ih2⟩ := ih
+        refine ⟨⟨x, List.mem_cons_of_mem _ hx, hk, hle⟩, ?_⟩
+        intro y hy
+        rcases List.mem_cons.mp hy with rfl | hy
+        · exact ⟨(t, p), List.mem_cons_self, rfl, Nat.le_refl _⟩
+        · obtain ⟨x, hx, hk, hle⟩ := ih2 y hy
+          exact ⟨x, List.mem_cons_of_mem _ hx, hk, hle⟩
+
+
+end TsVerif.C18
